@@ -20,11 +20,13 @@
 // right after the library allocated and initialised them, into a mapping that is fenced by inaccessible pages, so that an index of
 // -1 (Devices: start abuts the fence) or == count (others: end abuts the fence) faults deterministically instead of silently reading
 // a neighbouring heap object.  The objects are plain data (no self references), so a byte copy relocates them.
+static std::vector<std::pair<void *, size_t> > g_maps;       // unmapped at the end of the case
 static void *fenced_copy(const void *src, size_t bytes, bool fence_at_start) {
   size_t pg = (size_t)sysconf(_SC_PAGESIZE);
   size_t body = ((bytes + pg - 1) / pg) * pg;
   char *m = (char *)mmap(0, body + 2 * pg, PROT_READ | PROT_WRITE, MAP_PRIVATE | MAP_ANONYMOUS, -1, 0);
   if (m == MAP_FAILED) return 0;
+  g_maps.push_back(std::make_pair((void *)m, body + 2 * pg));
   mprotect(m, pg, PROT_NONE); mprotect(m + pg + body, pg, PROT_NONE);
   char *dst = fence_at_start ? m + pg : m + pg + body - bytes;
   memcpy(dst, src, bytes);
@@ -120,6 +122,7 @@ static void run_case(const std::string &line) {
     std::string out; g_out = &out; g_log = false;
 
     verif_now_ms = cold ? t0 : t0 - 1000;
+    tN2kSyncScheduler::SyncOffset = 0;                  // static of the library: every case starts like a fresh process
     tMock *n = new tMock();
     n->SetDeviceCount(ndev);
     n->SetN2kCANSendFrameBufSize(q);
@@ -202,6 +205,9 @@ static void run_case(const std::string &line) {
     out += "]";
     printf("%s\n", out.c_str());
     fflush(stdout);
-    // the node is deliberately not destroyed: tNMEA2000 has no destructor that releases its buffers
+    // the node is deliberately not destroyed: tNMEA2000 has no destructor that releases its buffers; the fenced copies of its arrays are
+    // released (the node object is never used again)
+    for (size_t i = 0; i < g_maps.size(); i++) munmap(g_maps[i].first, g_maps[i].second);
+    g_maps.clear(); g_dev = g_slots = g_sendbuf = 0;
   }
 }
